@@ -37,9 +37,36 @@ def scalars (us : List Nat) : List Nat := (codePoints us).map scalarOf
 /-- the bytes `encodeInto` writes -/
 def encode (us : List Nat) : List Nat := (scalars us).flatMap enc
 
-/-! ### driver: `(str8 U…)` → `LEN BYTES…` -/
+/-! ### `DiplomatBuf.str16`: the UTF-16 view
+
+  `byteLength = string.length * 2` bytes are allocated with alignment 2, `destination[i] = string.charCodeAt(i)`
+  stores each code unit through a `Uint16Array` (little-endian on wasm32), the view is `(ptr, string.length)` and
+  the buffer is freed with `byteLength` again. -/
+
+/-- the two bytes a `Uint16Array` store puts in wasm memory for one code unit -/
+def unitBytes (u : Nat) : List Nat := [u % 256, u / 256 % 256]
+
+/-- the bytes `str16` writes -/
+def encode16 (us : List Nat) : List Nat := us.flatMap unitBytes
+
+/-- the length of the view handed to Rust (elements, not bytes) -/
+def str16Len (us : List Nat) : Nat := us.length
+
+/-- the size `diplomat_alloc` and `diplomat_free` are called with -/
+def str16Bytes (us : List Nat) : Nat := us.length * 2
+
+/-- what Rust reads from a `&[u16]` view over those bytes -/
+def decode16 : List Nat → List Nat
+  | lo :: hi :: rest => (lo + 256 * hi) :: decode16 rest
+  | _ => []
+
+/-! ### driver: `(str8 U…)` → `LEN BYTES…`, `(str16 U…)` → `LEN NBYTES BYTES…` -/
 def runLine (line : String) : String :=
   match Sexp.parse line with
+  | some (.list (.atom "str16" :: us)) =>
+    match optMapM (fun s => match s with | .atom a => a.toNat? | _ => none) us with
+    | some l => (Nat.repr (str16Len l)) ++ " " ++ (Nat.repr (str16Bytes l)) ++ " " ++ " ".intercalate ((encode16 l).map Nat.repr)
+    | none => "bad-case"
   | some (.list (.atom "str8" :: us)) =>
     match optMapM (fun s => match s with | .atom a => a.toNat? | _ => none) us with
     | some l => (Nat.repr (str8Len l)) ++ " " ++ " ".intercalate ((encode l).map Nat.repr)
